@@ -70,6 +70,7 @@ type live struct {
 	gate      atomic.Pointer[func(c int, point string, args []any)] // optional scheduler gate (steering)
 	cmds      sync.Map                                              // *service.ActiveMessage -> caller id
 	readHold  func(c int, m *service.Message)                       // optional: runs inside the read callback
+	onJoin    func(c int, key string, err error)                    // optional: runs inside the join callback (after it was recorded)
 	replyHold func(c int, serial int)                               // optional: runs at W.reply.before
 	writeHold atomic.Pointer[func(c int)]                           // optional: runs inside the write callback (holds the writer)
 }
@@ -97,6 +98,9 @@ func (e *liveEventer) OnJoinEvent(msg *service.Message, key string, err error) {
 	e.l.rec.log(e.idx, "R", "join", "key", key, "ok", err == nil, "err", es, "serial", int(msg.JTMessage.Header.SerialNumber))
 	if e.l.readHold != nil { // C09: messages handed to the join callback are retained as well
 		e.l.readHold(e.idx, msg)
+	}
+	if e.l.onJoin != nil {
+		e.l.onJoin(e.idx, key, err)
 	}
 }
 func (e *liveEventer) OnLeaveEvent(key string) {
@@ -317,6 +321,16 @@ func startLive(o liveOpts) *live {
 		service.VerifSetHook(l.hook)
 	}
 	l.g = service.New(opts...)
+	// the first Run() finds the port taken and returns (an operator's retry follows): there is still one server, one registry
+	if busy, err := net.Listen("tcp", l.addr); err == nil {
+		ran := make(chan struct{})
+		go func() { l.g.Run(); close(ran) }()
+		select {
+		case <-ran:
+		case <-time.After(2 * time.Second):
+		}
+		busy.Close()
+	}
 	go l.g.Run()
 	// wait until the listener accepts
 	for i := 0; i < 200; i++ {
